@@ -46,6 +46,7 @@ type SelfTestResult struct {
 	BenignOK   int      `json:"benign_silent"`
 	Failures   []string `json:"failures,omitempty"`
 	SkippedIDs []string `json:"skipped,omitempty"`
+	Detail     []string `json:"reported_by,omitempty"`
 }
 
 func NewReport(prop, tier string) *Report {
